@@ -369,6 +369,8 @@ def register(reg):
         ok, bad = st.fork(act), st.fork(z3.Not(act), "group-inactive")
         out = []
         if eng.feasible(ok):
+            if eng.spec is not None and hasattr(eng.spec, "on_lib_call"):
+                eng.spec.on_lib_call(eng, ok, "TaskGroup.start_soon", recv, pos)
             _log_spawn(ok, tg, pos)
             for p in pos:
                 eng.escape(ok, p)
